@@ -63,7 +63,10 @@ def pep_bound(entry, kwargs):
         except Exception:
             return out[0], False, None
         if not findings:
-            return out[0], True, 1e-3
+            # the identity closes to 1e-6 * scale (multipliers, residual): that is also the accuracy of the bound on runs of
+            # unit size, hence an absolute allowance of 1e-4 * scale folded into the relative slack
+            sc = float(_info.get("scale", 1.0))
+            return out[0], True, 1e-3 + 1e-4 * sc / max(abs(out[0]), 1e-300)
     return out[0], False, None
 
 
